@@ -636,6 +636,55 @@ theorem live_running {pc : OPC} (h : pc.live = true) : pc.running = true := by
   | returned => simp [OPC.live] at h
   | abandoned l => simp [OPC.live] at h
 
+/-- one event in a state where call c has finished (returned a result or its context error): it is not a return of
+    c; it is not a frame of c unless c gave up with a frame still on its way, and after that frame none is -/
+theorem finished_step {o o1 : OState κ} {x : Ev κ} {c : Nat} {cl : OCaller κ}
+    (hs : Obs.step o x = some o1) (hc : o.callers[c]? = some cl) (hp : cl.pc.running = false) :
+    (∀ out, x ≠ Ev.ret c out) ∧ (cl.pc ≠ .abandoned true → ∀ ids a, x ≠ Ev.exec c ids a) ∧
+    ∃ cl1, o1.callers[c]? = some cl1 ∧ cl1.pc.running = false ∧
+      (cl.pc ≠ .abandoned true → cl1.pc ≠ .abandoned true) ∧ ((∃ ids a, x = Ev.exec c ids a) → cl1.pc ≠ .abandoned true) := by
+  have hlt : c < o.callers.length := (List.getElem?_eq_some_iff.1 hc).1
+  have hnl : cl.pc.live ≠ true := fun hl => by rw [live_running hl] at hp; cases hp
+  have hx1 : ∀ out, x ≠ Ev.ret c out := by
+    intro out hx; subst hx
+    simp only [Obs.step, hc] at hs
+    cases out with
+    | ok =>
+      simp only [] at hs
+      by_cases hq : cl.pc = .awaiting .ok
+      · rw [hq] at hp; cases hp
+      · rw [if_neg hq] at hs; cases hs
+    | execErr =>
+      simp only [] at hs
+      by_cases hq : cl.pc = .awaiting .err
+      · rw [hq] at hp; cases hp
+      · rw [if_neg hq] at hs; cases hs
+    | prepErr f =>
+      simp only [] at hs
+      rw [if_neg (fun hq => hnl hq.1)] at hs; cases hs
+    | countErr =>
+      simp only [] at hs
+      rw [if_neg (fun hq => hnl hq.1)] at hs; cases hs
+    | ctxErr =>
+      simp only [] at hs
+      rw [if_neg (fun hq => by rw [hq.2] at hp; cases hp)] at hs; cases hs
+  have hx2 : cl.pc ≠ .abandoned true → ∀ ids a, x ≠ Ev.exec c ids a := by
+    intro hna ids a hx; subst hx
+    simp only [Obs.step, hc] at hs
+    rw [if_neg (fun hq => hnl hq.1), if_neg (fun hq => hna hq.1)] at hs
+    cases hs
+  refine ⟨hx1, hx2, ?_⟩
+  by_cases hex : ∃ ids a, x = Ev.exec c ids a
+  · obtain ⟨ids, a, hx⟩ := hex; subst hx
+    simp only [Obs.step, hc] at hs
+    rw [if_neg (fun hq => hnl hq.1)] at hs
+    by_cases hk2 : cl.pc = .abandoned true ∧ okEntries o cl.banned cl.entries ids = true
+    · rw [if_pos hk2] at hs; injection hs with hs; subst hs
+      refine ⟨{ cl with pc := .abandoned false, banned := removedNow o }, ?_, rfl, fun _ => by simp, fun _ => by simp⟩
+      simp [hlt]
+    · rw [if_neg hk2] at hs; cases hs
+  · exact ⟨cl, step_keeps_caller hs hc (fun ids a hx => hex ⟨ids, a, hx⟩) hx1, hp, id, fun h => absurd h hex⟩
+
 /-- a call that has returned (a result, or its context error) never returns again, and the server receives no
     further frame of it — except the one frame that a caller which gave up on its context had just written -/
 theorem finished_stays (c : Nat) : ∀ (evs : List (Ev κ)) (o o' : OState κ) (cl : OCaller κ),
@@ -648,53 +697,38 @@ theorem finished_stays (c : Nat) : ∀ (evs : List (Ev κ)) (o o' : OState κ) (
     | none => simp [hs] at h
     | some o1 =>
       simp only [hs] at h
-      have hlt : c < o.callers.length := (List.getElem?_eq_some_iff.1 hc).1
-      have hnl : cl.pc.live ≠ true := fun hl => by rw [live_running hl] at hp; cases hp
-      have hx1 : ∀ out, x ≠ Ev.ret c out := by
-        intro out hx; subst hx
-        simp only [Obs.step, hc] at hs
-        cases out with
-        | ok =>
-          simp only [] at hs
-          by_cases hq : cl.pc = .awaiting .ok
-          · rw [hq] at hp; cases hp
-          · rw [if_neg hq] at hs; cases hs
-        | execErr =>
-          simp only [] at hs
-          by_cases hq : cl.pc = .awaiting .err
-          · rw [hq] at hp; cases hp
-          · rw [if_neg hq] at hs; cases hs
-        | prepErr f =>
-          simp only [] at hs
-          rw [if_neg (fun hq => hnl hq.1)] at hs; cases hs
-        | countErr =>
-          simp only [] at hs
-          rw [if_neg (fun hq => hnl hq.1)] at hs; cases hs
-        | ctxErr =>
-          simp only [] at hs
-          rw [if_neg (fun hq => by rw [hq.2] at hp; cases hp)] at hs; cases hs
-      have hx2 : cl.pc ≠ .abandoned true → ∀ ids a, x ≠ Ev.exec c ids a := by
-        intro hna ids a hx; subst hx
-        simp only [Obs.step, hc] at hs
-        rw [if_neg (fun hq => hnl hq.1), if_neg (fun hq => hna hq.1)] at hs
-        cases hs
-      have hkeep : ∃ cl1, o1.callers[c]? = some cl1 ∧ cl1.pc.running = false ∧
-          (cl.pc ≠ .abandoned true → cl1.pc ≠ .abandoned true) := by
-        by_cases hex : ∃ ids a, x = Ev.exec c ids a
-        · obtain ⟨ids, a, hx⟩ := hex; subst hx
-          simp only [Obs.step, hc] at hs
-          rw [if_neg (fun hq => hnl hq.1)] at hs
-          by_cases hk2 : cl.pc = .abandoned true ∧ okEntries o cl.banned cl.entries ids = true
-          · rw [if_pos hk2] at hs; injection hs with hs; subst hs
-            refine ⟨{ cl with pc := .abandoned false, banned := removedNow o }, ?_, rfl, fun _ => by simp⟩
-            simp [hlt]
-          · rw [if_neg hk2] at hs; cases hs
-        · exact ⟨cl, step_keeps_caller hs hc (fun ids a hx => hex ⟨ids, a, hx⟩) hx1, hp, id⟩
-      obtain ⟨cl1, g1, g2, g3⟩ := hkeep
+      obtain ⟨hx1, hx2, cl1, g1, g2, g3, _⟩ := finished_step hs hc hp
       intro e he
       rcases List.mem_cons.1 he with he | he
       · subst he; exact ⟨hx1, hx2⟩
       · have := finished_stays c evs o1 o' cl1 h g1 g2 e he
         exact ⟨this.1, fun hna => this.2 (g3 hna)⟩
+
+/-- … and of that late frame there is at most one -/
+theorem late_frame_once (c : Nat) : ∀ (evs : List (Ev κ)) (o o' : OState κ) (cl : OCaller κ),
+    Obs.run o evs = some o' → o.callers[c]? = some cl → cl.pc.running = false →
+    ∀ (p1 p2 : List (Ev κ)) (ids : List Id) (a : XAns), evs = p1 ++ Ev.exec c ids a :: p2 →
+      ∀ e ∈ p2, ∀ ids' a', e ≠ Ev.exec c ids' a'
+  | [], _, _, _, _, _, _ => by intro p1 p2 ids a h; cases p1 <;> simp at h
+  | x :: evs, o, o', cl, h, hc, hp => by
+    simp only [Obs.run] at h
+    cases hs : Obs.step o x with
+    | none => simp [hs] at h
+    | some o1 =>
+      simp only [hs] at h
+      obtain ⟨_, _, cl1, g1, g2, _, g4⟩ := finished_step hs hc hp
+      intro p1 p2 ids a hsplit
+      cases p1 with
+      | nil =>
+        simp only [List.nil_append] at hsplit
+        injection hsplit with hx hrest
+        subst hx; subst hrest
+        have hna := g4 ⟨ids, a, rfl⟩
+        intro e he ids' a'
+        exact (finished_stays c evs o1 o' cl1 h g1 g2 e he).2 hna ids' a'
+      | cons y p1 =>
+        simp only [List.cons_append] at hsplit
+        injection hsplit with _ hrest
+        exact late_frame_once c evs o1 o' cl1 h g1 g2 p1 p2 ids a hrest
 
 end C14Obs
